@@ -55,8 +55,8 @@ fn bases(tier: Tier) -> Vec<Base> {
 
 fn n_sampled_chunks(tier: Tier) -> u64 {
     match tier {
-        Tier::Quick => 240,
-        Tier::Thorough => 12_000,
+        Tier::Quick => 3_000,
+        Tier::Thorough => 40_000,
     }
 }
 
